@@ -296,7 +296,8 @@ theorem parse_format_inverts_format (ts : List Tok) (values : Groups) (h : fitsF
 
 /-- the format strings of the code give the item lists used in the model -/
 example : fmtToks "{} ({}) {}: {}".toList = some fmt4 ∧ fmtToks "{} ({}) {}".toList = some fmt3 ∧
-    fmtToks "{} (E-value: {}, bitscore: {}, seeds: {}, tool: {})".toList = some smFmt := by decide +kernel
+    fmtToks "{} (E-value: {}, bitscore: {}, seeds: {}, tool: {})".toList = some smFmt ∧
+    fmtToks "{} (Da): {:.3f}".toList = some t2WeightFmt := by decide +kernel
 
 /-- `_GeneFunctionAnnotation.from_string(str(a)) == a` for every annotation object (`Annot.wf`: what the
     constructor checks) whose tool has no `)`, whose texts have no newline and whose product has no `:`
@@ -376,5 +377,55 @@ example : domWFb .asDomain sampleDomain = true ∧
     (match sampleDomain.toBio with
      | .ok b => (match Dom.fromBio .asDomain b with | .ok d' => d' == { sampleDomain with feat := d'.feat } | _ => false)
      | _ => false) = true := by decide +kernel
+
+/-! ### the type II PKS annotation of a protocluster (`T2PKSQualifier`) -/
+
+/-- `from_biopython_qualifiers(to_biopython_qualifiers(t)) == t`, with nothing left over: starter units always,
+    elongations together with their weights or neither, product classes or none — in every combination.
+    `T2.wf`: what the constructor checks, distinct weight keys (a dictionary), weight texts that fit
+    `"{} (Da): {:.3f}"` (no space or `(` in the starter_elongation key; partial in that respect). -/
+theorem t2pks_annotation_roundtrip_partial (t : T2) (h : t.wf = true) : T2.fromQuals t.toQuals = .ok (some t, []) :=
+  t2_roundtrip t h
+
+/-- product classes without any elongation prediction: in scope, and they come back -/
+def t2ClassesOnly : T2 := ⟨["acetyl-CoA (Score: 0.0; E-value: 0.0)"], [], ["angucycline", "anthracycline"], []⟩
+example : t2ClassesOnly.wf = true ∧ (T2.fromQuals t2ClassesOnly.toQuals).toOption = some (some t2ClassesOnly, []) := by
+  decide +kernel
+example : (⟨["s"], ["7 (Score: 1.0; E-value: 0.5)"], [], [("acetyl-CoA_7", "342.347"), ("acetyl-CoA_8", "384.384")]⟩ : T2).wf = true := by
+  decide +kernel
+
+/-! ### Pfam identifier, `db_xref` and gene ontology terms of a `PFAMDomain` -/
+
+/-- the `description`, `db_xref` and `gene_ontologies` qualifiers `PFAMDomain.to_biopython` writes are read back
+    as the same description, identifier and version and the same gene ontology terms (in the order of their ids);
+    the ids stay behind in `db_xref` in sorted order.  `PfamX.wf`: constructor checks, version not 0, distinct
+    ids without `:`, a qualifier object with at least one term. -/
+theorem pfam_qualifiers_read_back (p : PfamX) (h : p.wf = true) :
+    PfamX.read p.quals = .ok ({ p with go := p.go.map sortGo }, match p.go with | some g => sortStrs (g.map (·.1)) | none => []) :=
+  pfam_read_quals p h
+
+/-- the first write is a fixed point: the re-read domain writes the same three qualifiers again, in whatever
+    order the gene ontology terms were attached to the original (they are written sorted both times) -/
+theorem pfam_second_write_identical (p : PfamX) (h : p.wf = true) :
+    ({ p with go := p.go.map sortGo } : PfamX).quals = p.quals :=
+  pfam_second_write p h
+
+/-- PF00032 with its terms in the order of the pfam2go mapping (not the order of the ids) -/
+def pfamMappingOrder : PfamX :=
+  ⟨"Cytochrome b(C-terminal)/b6/petD", "PF00032", some 20,
+   some [("GO:0009055", "electron transfer activity"), ("GO:0016491", "oxidoreductase activity"), ("GO:0016020", "membrane")]⟩
+example : pfamMappingOrder.wf = true ∧
+    (Q.get? pfamMappingOrder.quals "db_xref") = some ["PF00032.20", "GO:0009055", "GO:0016020", "GO:0016491"] := by
+  decide +kernel
+
+/-! ### a sideloaded area whose tool name itself starts with "externally annotated" (fixes/D67-C10) -/
+
+def sideNamed : Sub :=
+  ⟨⟨.simple ⟨150, 210, .none⟩, "subregion", [], [], true, none⟩, "externally annotated regions v2", "x", some [("zz_extra", ["1"])]⟩
+/-- the model is the repaired code: the prefix is stripped once and the area is read back (the unrepaired code starts over
+    from the original feature for ever) -/
+example : (match sideNamed.toBio none false with
+    | .ok [b] => (match Sub.fromBio b with | .ok s => s.tool == sideNamed.tool && s.side == sideNamed.side && s.label == "x" | _ => false)
+    | _ => false) = true := by decide +kernel
 
 end ASV.C10
